@@ -45,6 +45,7 @@ func init() {
 			{ID: "C17-R20", Title: "the marshaller refuses what the loader cannot read", Floor: 1, Run: theMarshallerRefusesWhatTheLoaderCannotRead},
 			{ID: "C17-R21", Title: "the loader limits what the compiler limits", Floor: 1, Run: theLoaderLimitsWhatTheCompilerLimits},
 			{ID: "C17-R22", Title: "the writers of the stored form agree", Floor: 1, Run: theWritersOfTheStoredFormAgree},
+			{ID: "C17-R23", Title: "floats are written in their own width", Floor: 1, Run: floatsAreWrittenInTheirOwnWidth},
 		},
 	})
 }
